@@ -663,7 +663,8 @@ fn check(c: &Case, obs: &mut Obs) -> Result<(), Failure> {
     // A Branch into a native instruction whose graph has several blocks, after `merge` moved the
     // head of that graph into a block with a higher index than the rest of it: `Driver::step`
     // (`from_address`: "the first Instruction with the given address") lands inside the instruction.
-    let inside_sig = format!("C06|{}|driver-run|branch-lands-inside-multi-block-instruction", if isa.is_mips() { "mips" } else { tag });
+    // (the defect site is merge + from_address, not a lifter: the signature carries no ISA)
+    let inside_sig = "C06|driver-run|branch-lands-inside-multi-block-instruction".to_string();
     if rf.first_instruction_rule_differs && obs.known(&inside_sig) {
         obs.exclude(&format!("known_finding:{}", inside_sig));
         driver_blind = true;
@@ -865,7 +866,7 @@ fn simplify(c: &Case) -> Vec<Case> {
 fn main() -> std::process::ExitCode {
     let mut spec = Spec::new(
         "C06",
-        "machine-code programs of 3-60 items for x86/amd64/mips/mipsel/aarch64 (ALU, scratch loads/stores, forward/backward conditional and unconditional direct branches, counted loops, optional jmp-reg dispatch with manual edges, junk islands) recovered with translate_function[_extended] and compared, structurally against the generator's ground truth and behaviourally (Driver and reference interpreter on the recovered function vs a sequential one-unit-at-a-time stepper, same random initial state, up to 2000 native steps); non-trivial = at least 2 blocks after merge and at least one taken branch in the execution; distinct = (ISA, set of layout shapes {window cut, straddle, cut on boundary, MIPS branch in last 8 bytes, mid-block target, backward, entry loop, manual edges, ...}, instruction-count bucket)",
+        "machine-code programs of 3-60 items for x86/amd64/mips/mipsel/aarch64 (ALU, scratch loads/stores, forward/backward conditional and unconditional direct branches, counted loops, optional jmp-reg dispatch with manual edges, junk islands) recovered with translate_function[_extended] and compared, structurally against the generator's ground truth (every reachable instruction's IL present exactly once and in no more blocks than its own lifting has, entry block at the function address, no dangling edge/entry/exit, manual tails lifted and connected) and behaviourally (Driver and reference interpreter on the recovered function vs a sequential one-unit-at-a-time stepper, same random initial state, up to 2000 native steps: one event per executed native instruction, address and state digest; plus blockify() of the entry window vs the stepper); non-trivial = at least 2 blocks after merge and at least one taken branch in the execution; distinct = (ISA, set of layout shapes {window cut, straddle, cut on boundary, MIPS branch in last 8 bytes, mid-block target, backward, entry loop, manual edges, ...}, instruction-count bucket)",
         Box::new(|_t: Tier| from_tape(900, decode).no_shrink().boxed()),
         |t| t.pick(45_000, 1_500_000),
         check,
@@ -875,40 +876,49 @@ fn main() -> std::process::ExitCode {
     spec.assumptions = vec![
         "per-instruction IL semantics are shared by both sides (C01-C03 check them); a program whose step units do not all lift in isolation is excluded".into(),
         "executions stop at the first Branch whose target lies outside the lifted code (the terminator's return address)".into(),
+        "a Branch operation into the function continues at the head of the target instruction's graph (reference run) / where Driver::step puts it (Driver run)".into(),
         "MIPS: no branch in a delay slot; the delay slot of jr never writes the target register (C02|mips|jr|target-after-slot)".into(),
         "PowerPC is not generated (its lifter has almost no branch forms)".into(),
     ];
+    // 0.4-0.5 of the smallest fraction measured over seeds 1..5 (45 000 cases each), see the report
     spec.floors = vec![
-        ("nontrivial", 0.30),
-        ("x86:straddle", 0.006),
-        ("amd64:straddle", 0.006),
-        ("x86:window-cut", 0.006),
-        ("amd64:window-cut", 0.006),
-        ("mips:window-cut", 0.006),
-        ("mipsel:window-cut", 0.006),
-        ("aarch64:window-cut", 0.006),
-        ("mips:branch-in-last-8-bytes", 0.006),
-        ("mipsel:branch-in-last-8-bytes", 0.006),
-        ("x86:mid-block-target", 0.006),
-        ("amd64:mid-block-target", 0.006),
-        ("mips:mid-block-target", 0.006),
-        ("mipsel:mid-block-target", 0.006),
-        ("aarch64:mid-block-target", 0.006),
-        ("x86:entry-loop", 0.006),
-        ("amd64:entry-loop", 0.006),
-        ("mips:entry-loop", 0.006),
-        ("mipsel:entry-loop", 0.006),
-        ("aarch64:entry-loop", 0.006),
-        ("x86:manual-edges", 0.006),
-        ("amd64:manual-edges", 0.006),
-        ("mips:manual-edges", 0.006),
-        ("mipsel:manual-edges", 0.006),
-        ("aarch64:manual-edges", 0.006),
-        ("backward-branch", 0.15),
-        ("region-ends-after-last-instruction", 0.20),
-        ("unaligned-base", 0.10),
-        ("target-is-fallthrough", 0.03),
-        ("end:exit", 0.20),
+        ("nontrivial", 0.25),
+        ("taken-branch", 0.26),
+        ("x86:straddle", 0.008),
+        ("amd64:straddle", 0.016),
+        ("x86:cut-on-boundary", 0.003),
+        ("amd64:cut-on-boundary", 0.006),
+        ("x86:window-cut", 0.010),
+        ("amd64:window-cut", 0.020),
+        ("mips:window-cut", 0.018),
+        ("mipsel:window-cut", 0.018),
+        ("aarch64:window-cut", 0.011),
+        ("mips:branch-in-last-8-bytes", 0.009),
+        ("mipsel:branch-in-last-8-bytes", 0.009),
+        ("x86:mid-block-target", 0.05),
+        ("amd64:mid-block-target", 0.05),
+        ("mips:mid-block-target", 0.05),
+        ("mipsel:mid-block-target", 0.05),
+        ("aarch64:mid-block-target", 0.05),
+        ("x86:entry-loop", 0.017),
+        ("amd64:entry-loop", 0.017),
+        ("mips:entry-loop", 0.017),
+        ("mipsel:entry-loop", 0.017),
+        ("aarch64:entry-loop", 0.017),
+        ("x86:manual-edges", 0.02),
+        ("amd64:manual-edges", 0.02),
+        ("mips:manual-edges", 0.02),
+        ("mipsel:manual-edges", 0.02),
+        ("aarch64:manual-edges", 0.02),
+        ("manual-head-executed", 0.07),
+        ("dispatch-executed", 0.08),
+        ("backward-branch", 0.19),
+        ("block-over-56-bytes", 0.09),
+        ("region-ends-after-last-instruction", 0.22),
+        ("unaligned-base", 0.14),
+        ("target-is-fallthrough", 0.05),
+        ("end:exit", 0.27),
+        ("blockify-compared", 0.5),
     ];
     spec.workers = |t| t.pick(8, 16);
     spec.case_timeout_s = 120;
